@@ -3,6 +3,9 @@ time-axis term regenerated as data; the theorems of Props/C14 are about the inte
 correspondence (real routine vs the interpreter run on the regenerated program, exact ℚ) + monitors of the
 property statement on the real output.  Failing-input search = real routine vs the Spec (driver `spec` mode)."""
 import logging
+import os
+import shutil
+import tempfile
 import warnings
 from fractions import Fraction
 
@@ -77,15 +80,28 @@ def real_out(c):
     from PyMatterSim.dynamic.time_corr import time_correlation
     snaps = _snapshots([int(t) for t in c["ts"]], c["N"])
     cond = condition_of(c)
+    tmp = tempfile.mkdtemp(prefix="c14-") if c.get("csv") else None
+    out = os.path.join(tmp, "tc.csv") if tmp else ""
     try:
         with warnings.catch_warnings():
             warnings.simplefilter("ignore")
             with np.errstate(all="ignore"):
-                df = time_correlation(snaps, cond, dt=float(Fraction(c["dt"])))
+                df = time_correlation(snaps, cond, dt=float(Fraction(c["dt"])), outputfile=out)
+        v = np.asarray(df.values, dtype=float)
+        res = ["ok", list(df.columns), v[:, 0].copy(), v[:, 1].copy(), None]
+        if tmp:
+            import pandas as pd
+            back = pd.read_csv(out)
+            w = np.asarray(back.values, dtype=float)
+            same = list(back.columns) == list(df.columns) and w.shape == v.shape and bool(
+                np.all((np.abs(w - v) <= 0.6e-8) | (np.isnan(w) & np.isnan(v)) | (np.isinf(w) & (w == v))))
+            res[4] = same
+        return tuple(res)
     except Exception as e:  # noqa: BLE001
         return ("raise", type(e).__name__, str(e)[:200])
-    v = np.asarray(df.values, dtype=float)
-    return ("ok", list(df.columns), v[:, 0].copy(), v[:, 1].copy())
+    finally:
+        if tmp:
+            shutil.rmtree(tmp, ignore_errors=True)
 
 
 # ----------------------------------------------------------------------------- generator
@@ -154,7 +170,7 @@ def gen_case(rng, stream="main"):
                             for r in range(w):
                                 vals[w * p + r] = vals[w * q + r]
     return {"shapeLen": L, "T": T, "N": N, "d1": d1, "d2": d2, "cplx": cplx, "dt": dt, "ts": [str(t) for t in ts],
-            "vals": vals, "stream": stream, "style": style, "flavour": flavour}
+            "vals": vals, "stream": stream, "style": style, "flavour": flavour, "csv": rng.random() < 0.05}
 
 
 def op_line(c, mode):
@@ -193,9 +209,11 @@ def compare(c, m, real, mode="impl"):
         return "fail", "noraise" if real[0] == "ok" else f"raise:{real[1]}"
     if real[0] == "raise":
         return "fail", f"raise:{real[1]}"
-    _, cols, t, corr = real
+    _, cols, t, corr, csv_same = real
     if cols != ["t", "time_corr"]:
         return "fail", "columns"
+    if csv_same is False:
+        return "fail", "csv"
     if len(t) != T or len(corr) != T:
         return "fail", "length"
     for k in range(T):
@@ -238,6 +256,8 @@ def describe(c, m, real, what):
         return head + f"t = {[float(x) for x in real[2]]} but (timestep − first timestep)·dt = {[float(x) for x in m['t']]}"
     if what == "columns":
         return head + f"columns {real[1]}"
+    if what == "csv":
+        return head + "the CSV written to `outputfile` does not read back as the returned table (8 decimals)"
     return head + what
 
 
@@ -262,6 +282,8 @@ def run_cases(run, cases, mode="impl", record=True):
             run.hist("d", c["d1"])
             run.hist("timesteps", c.get("style", "?"))
             run.hist("branch", m["status"] if m["status"] != "ok" else ("linear" if m["even"] else "single-origin"))
+            if c.get("csv"):
+                run.hist("outputfile", "csv written and read back")
         if verdict == "skip":
             skipped += 1
             continue
